@@ -552,9 +552,7 @@ theorem C02_nested_roundtrip (p : Nat) (t : CqlTy) (ty : GoTy) (g : GoVal) (h : 
   | tuple fs _ hside ih => exact rt_tuple_struct p _ _ _ (fieldsRT_of p fs ih hside)
 
 /-- non-vacuity: list<map<text, list<int>>> — a slice holding a nil map and a map from "b" to a slice of *int (one
-    pointing to 7, one nil = a null element, protocol 4).  (Maps with two or more entries: the hypothesis `KeysDistinct`
-    is stated with the model's key comparison `==` of `GoVal`, a derived instance the kernel cannot unfold — it is an
-    assumption there, see props `partial`.) -/
+    pointing to 7, one nil = a null element, protocol 4) -/
 example : Clean 4 (.list (.map .text (.list .int))) (.slice (.map (.str false) (.slice (.ptr (.int .int false)))))
     (.slice false [.map true [],
                    .map false [(.str false [98], .slice false [.ptr (.int .int false 7), .nilptr])]]) := by
@@ -576,6 +574,22 @@ example : Clean 4 (.list (.map .text (.list .int))) (.slice (.map (.str false) (
       · exact .ptr 1 rfl (.leaf (.int (col := .int) rfl _ _ _ (by decide))) (by
           unfold NonNull; simp [marshal, marshalScalar, marshalIntColumn, optM, marshalIntKind])
       · exact .nilptr _ 0 _ rfl
+
+/-- non-vacuity for maps of any size: `KeysDistinct` is discharged by computation (`keysDistinct_of_B`; `==` on Go values
+    is the structural `GoVal.beqV` of Model/Marshal.lean) — map<text, int> ↔ map[string]int with three entries -/
+example : Clean 2 (.map .text .int) (.map (.str false) (.int .int false))
+    (.map false [(.str false [97], .int .int false 1), (.str false [98], .int .int false (-2)), (.str false [], .int .int false 0)]) := by
+  refine .map ?_ ?_ ?_ (keysDistinct_of_B _ (by decide))
+  · intro kv hkv
+    simp at hkv
+    rcases hkv with rfl | rfl | rfl <;> exact .leaf (.str (Or.inr (Or.inl rfl)) _ _)
+  · intro kv hkv
+    simp at hkv
+    rcases hkv with rfl | rfl | rfl <;> exact .leaf (.int (col := .int) rfl _ _ _ (by decide))
+  · intro _ kv hkv
+    simp at hkv
+    rcases hkv with rfl | rfl | rfl <;>
+      (unfold NonNull; simp [marshal, marshalScalar, marshalVarcharColumn, marshalIntColumn, optM, marshalIntKind])
 
 /-- non-vacuity of the tuple constructor: list<tuple<int, text>> ↔ []struct{ *int; string } = [(null, "A")] -/
 example : Clean 4 (.list (.tuple [.int, .text])) (.slice (.struct [.ptr (.int .int false), .str false]))
